@@ -9,6 +9,21 @@ from ..core.serializable import JSONSerializable
 from ..core.utils import get_class, register_class
 
 
+def _restore_int_keys(obj):
+    """JSON turns integer dictionary keys (e.g. the milestones of MultiStepLR)
+    into strings: convert them back."""
+    if isinstance(obj, dict):
+        return {
+            int(key)
+            if isinstance(key, str) and key.lstrip('-').isdigit()
+            else key: _restore_int_keys(value)
+            for key, value in obj.items()
+        }
+    elif isinstance(obj, list):
+        return [_restore_int_keys(value) for value in obj]
+    return obj
+
+
 @register_class
 class Scheduler(JSONSerializable):
     """A wrapper for :class:`~torch.optim.lr_scheduler` objects.
@@ -26,7 +41,7 @@ class Scheduler(JSONSerializable):
         return self.scheduler.state_dict()
 
     def load_state_dict(self, state_dict: dict[str, Any]) -> None:
-        self.scheduler.load_state_dict(state_dict)
+        self.scheduler.load_state_dict(_restore_int_keys(state_dict))
 
     @classmethod
     def from_json(
